@@ -85,3 +85,8 @@ def run(chk):
                         "the kernel's remaining time never exceeds the requested time",
                         "semaphore, shared-memory and socket parts of C19: theorems acquire/sem_open/shm_open/shm_lock/socket *_eintr_transparent in PV.Props.C06/C07/C09 and the EINTR campaigns of those checks"]
     return chk.finish()
+
+
+def replay_family(cfg):
+    exe = pv.build_harness("sleep", cfg, ["sleep.c"], san="asan", link=["-Wl,--wrap=clock_nanosleep", "-Wl,--wrap=nanosleep"])
+    return diffrun.Family("sleep", exe, spec_view=spec_view, timeout=300)
